@@ -115,6 +115,20 @@ def run(ctx):
         if not ok2 or back != rec:
             s3.fail(dict(case, encoded=hexb(raw), decoded=repr(back)[:200]),
                     "decode_record(encode_record(t)) != t", "roundtrip/not-inverse")
+        elif r.random() < 0.3:
+            # the caller changes the result in place; decoding the same bytes again gives the record again
+            for f_ in back:
+                if isinstance(f_, list):
+                    for x_ in f_:
+                        if isinstance(x_, list):
+                            x_.append("changed")
+                    f_.append("changed")
+            back.append("changed")
+            again = codecio.ok_or_err(codec.decode_record, raw, enc)
+            if again != (True, rec):
+                s3.fail(dict(case, encoded=hexb(raw), second=repr(again)[:200]),
+                        "decoding the same record a second time (after the first result was modified in place) gives another tree",
+                        "roundtrip/decode-again")
         lines.append(codecio.model_line("er", enc, rec))
         impls.append("ok " + hexb(raw))
         metas.append(case)
